@@ -14,6 +14,7 @@ use xtmodel::{is_blank, ModelErr, TokDe};
 #[derive(Debug)]
 pub enum Error {
 	Io(io::Error),
+	IoWrite,
 	Syntax,
 	Custom,
 }
@@ -28,7 +29,10 @@ impl serde::ser::Error for Error {
 	fn custom<T: fmt::Display>(_: T) -> Self { Error::Custom }
 }
 impl ModelErr for Error {
-	fn io(e: io::Error) -> Self { Error::Io(e) }
+	fn io(e: io::Error) -> Self {
+		std::mem::forget(e);
+		Error::IoWrite
+	}
 	fn syntax() -> Self { Error::Syntax }
 }
 pub type Result<T> = std::result::Result<T, Error>;
@@ -90,7 +94,7 @@ macro_rules! fwd {
 	($($name:ident($($arg:ident: $ty:ty),*);)*) => {
 		$(fn $name(self, $($arg: $ty),*) -> Result<()> {
 			(&mut self.0).$name($($arg),*)?;
-			io::Write::write_all(&mut self.0.w, b"\n").map_err(Error::Io)
+			io::Write::write_all(&mut self.0.w, b"\n").map_err(<Error as ModelErr>::io)
 		})*
 	};
 }
